@@ -29,11 +29,11 @@ LEVEL = "proof"
 LOSSES = ["l2_amplitude", "l1_amplitude", "l2_intensity", "l1_intensity"]
 # "zero to numerical precision":  loss(ground truth) <= ZERO_RATIO * max(loss(perturbed object),
 # loss(perturbed probe)), the perturbations being PERT-rad-scale phase / 60 % amplitude errors.  The
-# pipeline is float32: measured ratios over the generated families are <= 2e-5 (l1) / 2e-10 (l2)
-# under no_shift and <= 4e-4 (l1) / 5e-8 (l2) under `constant` (whose preprocessing shifts the
-# amplitudes with a float32 FFT); see "max_ratio" in the evidence.  The thresholds leave a factor
-# >= 25; a convention error (index, sign, shift, normalisation, ordering) gives ratios >= 1e-2
-# (see the sensitivity list in the manifest note).
+# pipeline is float32: measured ratios over 472 thorough-tier cases are <= 4e-5 (l1) / 3e-9 (l2)
+# under no_shift and <= 6e-5 (l1) / 5e-10 (l2) under `constant` (whose preprocessing shifts the
+# amplitudes with a float32 FFT: looser bound); see "max_ratio" in the evidence.  The thresholds
+# leave a factor >= 25; a convention error (index, sign, shift, normalisation, ordering) gives
+# ratios >= 1e-2 (see the sensitivity list in the manifest note).
 ZERO_RATIO = {"no_shift": {"l2_amplitude": 1e-7, "l2_intensity": 1e-7, "l1_amplitude": 1e-3, "l1_intensity": 1e-3},
               "constant": {"l2_amplitude": 1e-5, "l2_intensity": 1e-5, "l1_amplitude": 1e-2, "l1_intensity": 1e-2}}
 COM_PRECONDITION = 2e-6      # |fitted constant origin - (centre + integer)| in pixels
@@ -255,8 +255,15 @@ def gen_case(r: random.Random, family: str, quick=True) -> dict:
         c["aberr"] = {"C10": r.uniform(-60, 60), "C30": r.choice([0.0, 2e4]), "C12": r.uniform(0, 20), "phi12": r.uniform(0, 3)}
     else:
         # reciprocal pixel (1/A): chosen so that the Nyquist angle is 30..60 mrad
-        nyq = [r.uniform(0.030, 0.060) for _ in range(2)]
-        c["recip"] = [nyq[0] / lam / (n // 2), nyq[1] / lam / (m // 2)]
+        # and the aperture can have a radius of >= 1.3 detector pixels on both axes (needed by the
+        # higher probe modes) while staying below 0.85 Nyquist
+        while True:
+            nyq = [r.uniform(0.030, 0.060) for _ in range(2)]
+            c["recip"] = [nyq[0] / lam / (n // 2), nyq[1] / lam / (m // 2)]
+            semi_lo = 1.3 * max(c["recip"]) * lam
+            semi_hi = 0.85 * min(nyq)
+            if semi_lo < 0.95 * semi_hi:
+                break
         gmax = 4 if quick else 6
         c["gpts"] = [r.randint(2, gmax), r.randint(2, gmax)]
         steps = []
@@ -269,7 +276,7 @@ def gen_case(r: random.Random, family: str, quick=True) -> dict:
         c["step_px"] = steps
         c["pad"] = [r.choice([0, 0, 1, 2, 3, 5, 8]), r.choice([0, 0, 1, 2, 4, 6])]
         c["strength"] = r.uniform(0.3, 1.2)
-        c["semiangle_mrad"] = r.uniform(0.35, 0.8) * min(nyq) * 1e3
+        c["semiangle_mrad"] = r.uniform(semi_lo, semi_hi) * 1e3
         c["aberr"] = {"C10": r.uniform(-80, 80), "C30": r.choice([0.0, 0.0, 1e4, 5e4]), "C12": r.choice([0.0, r.uniform(0, 30)]),
                       "phi12": r.uniform(0, 3)}
     c["thick"] = [round(r.uniform(1.0, 12.0), 3) for _ in range(c["slices"] - 1)]
@@ -643,15 +650,28 @@ def run(ctx: Ctx):
     odd_report = []
     corr_items = []
     n_unmet = 0
-    for family, count in plan:
-        ctx.log("family %s: %d cases" % (family, count))
-        for k in range(count):
-            c = gen_case(r, family, quick=ctx.quick)
-            if family == "main" and k < 12:
-                c["kind"], c["slices"], c["modes"] = kinds[k % 3], 1 + k % 4, 1 + (k // 2) % 3
-                c["thick"] = [round(r.uniform(1.0, 12.0), 3) for _ in range(c["slices"] - 1)]
-                w = [0.6 ** i * r.uniform(0.6, 1.0) for i in range(c["modes"])]
-                c["weights"] = [x / sum(w) for x in w]
+    def stream():
+        from ..common import VERIF
+        cp = VERIF / "corpus" / "C02" / "cases.json"
+        if cp.exists():
+            corpus = json.loads(cp.read_text()).get("cases", [])
+            ctx.log("corpus: %d regression cases" % len(corpus))
+            for c0 in corpus:
+                ctx.dist("corpus")
+                yield c0["family"], dict(c0)
+        for family, count in plan:
+            ctx.log("family %s: %d cases" % (family, count))
+            for k in range(count):
+                c = gen_case(r, family, quick=ctx.quick)
+                if family == "main" and k < 12:
+                    c["kind"], c["slices"], c["modes"] = kinds[k % 3], 1 + k % 4, 1 + (k // 2) % 3
+                    c["thick"] = [round(r.uniform(1.0, 12.0), 3) for _ in range(c["slices"] - 1)]
+                    w = [0.6 ** i * r.uniform(0.6, 1.0) for i in range(c["modes"])]
+                    c["weights"] = [x / sum(w) for x in w]
+                yield family, c
+
+    for family, c in stream():
+        if True:
             keep = len(corr_items) < ctx.budget(24, 120) and family in ("main", "constant")
             try:
                 res = run_case(c, want_arrays=keep)
